@@ -254,7 +254,7 @@ type api[N any] struct {
 	del          func(*N) error
 	replace      func(old, new int) error
 	each         func(func(int))
-	first, last  func() int // nil: the list has no First/Last
+	first, last  func() int   // nil: the list has no First/Last
 	mk           func(int) *N // a node of the right type that belongs to no list
 }
 
@@ -925,11 +925,81 @@ func checkDup(name string, dl bool, prop func(Case, *pbt.R) error) *pbt.Check[Ca
 	}
 }
 
+// ---------------------------------------------------------------------------
+// long lists: tens of thousands of nodes (a walk that gives up after 2^16 steps would stop short)
+
+// LongCase: a list of N nodes built at the front (Unshift) in one go, then edited at the far end.
+type LongCase struct {
+	Doubly bool `json:"doubly"`
+	N      int  `json:"n"`
+}
+
+func longProp(c LongCase, r *pbt.R) error {
+	n := 2 + ((c.N-2)%200000+200000)%200000
+	var (
+		unshift, appendTo func(int)
+		pop               func()
+		each              func(func(int))
+		last              func() int
+		name              = "SList"
+	)
+	if c.Doubly {
+		l := list.InitDList(0)
+		unshift, appendTo, pop, each, last, name = l.Unshift, l.Append, func() { l.Pop() }, l.Each, l.Last, "DList"
+	} else {
+		l := list.Init(0)
+		unshift, appendTo, pop, each = l.Unshift, l.Append, l.Pop, l.Each
+	}
+	for i := 1; i < n; i++ {
+		unshift(i) // the list reads n-1, n-2, ..., 1, 0
+	}
+	tail := func() (count, secondLast, lastV int) {
+		each(func(v int) { count++; secondLast, lastV = lastV, v })
+		return
+	}
+	ctx := fmt.Sprintf("%s of %d nodes built by Unshift (it reads %d, %d, ..., 1, 0)", name, n, n-1, n-2)
+	if cnt, _, lv := tail(); cnt != n || lv != 0 {
+		return fmt.Errorf("%s: Each visits %d values, the last one %d; want %d values ending in 0", ctx, cnt, lv, n)
+	}
+	appendTo(-7)
+	if cnt, sl, lv := tail(); cnt != n+1 || lv != -7 || sl != 0 {
+		return fmt.Errorf("%s: after Append(-7) Each visits %d values ending in %d, %d; want %d values ending in 0, -7", ctx, cnt, sl, lv, n+1)
+	}
+	if last != nil {
+		if got := last(); got != -7 {
+			return fmt.Errorf("%s: after Append(-7) Last() = %d", ctx, got)
+		}
+	}
+	appendTo(-8)
+	pop()
+	if cnt, sl, lv := tail(); cnt != n+1 || lv != -7 || sl != 0 {
+		return fmt.Errorf("%s: after Append(-7) Append(-8) Pop Each visits %d values ending in %d, %d; want %d values ending in 0, -7", ctx, cnt, sl, lv, n+1)
+	}
+	if last != nil {
+		if got := last(); got != -7 {
+			return fmt.Errorf("%s: after Append(-7) Append(-8) Pop Last() = %d, want -7", ctx, got)
+		}
+	}
+	r.NonTrivialIf(n > 65537, "more than 65537 nodes")
+	return nil
+}
+
 func TestProp(t *testing.T) {
 	pbt.Run(t, "C19",
 		check("slist", false, propS),
 		check("dlist", true, propD),
 		checkDup("slist-dup", false, propS),
 		checkDup("dlist-dup", true, propD),
+		&pbt.Check[LongCase]{
+			Name: "long",
+			Rule: "lists of thousands to tens of thousands of nodes (built at the front by Unshift): Each visits all of them, Append puts its value behind the very last node (Each and, on the doubly linked list, Last say so), Append followed by Pop leaves the earlier tail in place. Fixed: both lists with 1000, 65536, 65537, 65538 and 70000 nodes; random: 2..100000 nodes. Non-trivial = more than 65537 nodes.",
+			Gen: func(s pbt.Src, _ bool) LongCase {
+				return LongCase{Doubly: pbt.Bool(s), N: pbt.Pick(s, 2, 300, 4097, 32769, 66000, 100000)}
+			},
+			Prop:       longProp,
+			OutOfEnum:  func(LongCase, bool) bool { return true },
+			Fixed:      []LongCase{{false, 1000}, {true, 1000}, {false, 65536}, {true, 65536}, {false, 65537}, {true, 65537}, {false, 65538}, {true, 65538}, {false, 70000}, {true, 70000}},
+			RapidQuick: 4, RapidThorough: 40,
+		},
 	)
 }
